@@ -200,7 +200,7 @@ class Axis(GetSetDelAttrMixin, AbstractAxis):
         -------
         subaxis : Axis instance
         """
-        values = self._values.take(indices, mode=mode)
+        values = self.values.take(indices, mode=mode)
         return Axis(values, self.name, tol=self.tol, **self.attrs)
 
 
@@ -421,9 +421,9 @@ class MultiAxis(Axis):
     def values(self):
         """ values as 2-D numpy array, to keep things consistent with Axis
         """
-        if self._values is None:
-            self._values = self._get_values()
-        return self._values
+        # always derived from the member axes: they are shared with other arrays
+        # and may be relabelled at any time, so the tuples must not be cached
+        return self._get_values()
 
     def _get_values(self):
         # Each element of the new axis is a tuple, which makes a 2-D numpy array
@@ -439,9 +439,7 @@ class MultiAxis(Axis):
     def size(self): 
         """ size as product of axis sizes
         """
-        if self._size is None:
-            self._size = self._get_size()
-        return self._size
+        return self._get_size()
 
     def _get_size(self):
         return np.prod([ax.size for ax in self.axes])
